@@ -269,7 +269,7 @@ func foldRaceLogs(c *h.Ctx, dir string, anchors []string) {
 			attributed := false
 			for _, t := range tops {
 				for _, a := range anchors {
-					if t == a {
+					if t == a || strings.HasSuffix(t, "/"+a) {
 						attributed = true
 					}
 				}
